@@ -434,7 +434,12 @@ messageTypeSwitching:
 func (m *MTProto) tryToProcessErr(e *ErrResponseCode) error {
 	switch e.Message {
 	case "PHONE_MIGRATE_X":
-		newIP, found := m.dclist[e.AdditionalInfo.(int)]
+		dc, ok := e.AdditionalInfo.(int)
+		if !ok {
+			// server has sent this text as is, without a number of DC: nothing to migrate to
+			return e
+		}
+		newIP, found := m.dclist[dc]
 		if !found {
 			return errors.Wrapf(e, "DC with id %v not found", e.AdditionalInfo)
 		}
